@@ -746,7 +746,8 @@ def tully_case(c):
                 dv = abs(ob["vel"][m] - o1["vel"][0])
                 da = float(np.abs(ob["amp"][m] - o1["amp"][0]).max())
                 if ob["act"][m] != o1["act"][0] or dx > 1e-9 or dv > 1e-9 or da > 1e-6:
-                    prob.append(dict(cls="batch_row_differs_from_single", row=m, step=s, mixed=bool(len(set(c["init"])) > 1 or len(set(ob["act"].tolist())) > 1),
+                    ever_mixed = len(set(c["init"])) > 1 or any(len(set(o_["act"].tolist())) > 1 or len(set(o_["act_before"].tolist())) > 1 for o_ in obs[: s + 1])
+                    prob.append(dict(cls="batch_row_differs_from_single", row=m, step=s, mixed=bool(ever_mixed),
                                      msg=f"trajectory {m} of the batch differs from its single run at step {s}: dx {dx:.2e} dv {dv:.2e} damp {da:.2e} "
                                          f"active {int(ob['act'][m]) + 1} vs {int(o1['act'][0]) + 1}"))  # fmt: skip
                     break
